@@ -4,10 +4,10 @@ CFG = cfg('C14', refine=['Refine_subarea'], extract='Ex_C14', driver='c14',
           rule='generated packet sequences built through PGPy\'s own packet classes (dummy signature MPIs; parsing does not verify): 1-3 keys per blob '
                '(public and private), 0-4 user ids / attributes each with 0-4 self / third-party / revocation / attestation signatures (30 %: revoked or attested by the key itself after its newest certification), direct-key and key '
                'revocation signatures, 0-3 subkeys with binding signatures carrying 0-2 embedded cross-signatures, few distinct creation times '
-               '(many ties), explicit exportable 0/1, interleaved Trust packets, Opaque packets (signature tag, private-use tag, subkey of unknown version), primary key packets of unknown version with signatures / user ids / subkeys of their own before, between and after the keys (30 %), signatures of an unsupported public-key algorithm (opaque signature octets; every 7th), the same key / subkey twice, '
+               '(many ties), explicit exportable 0/1, interleaved Trust packets, Opaque packets (signature tag, private-use tag, subkey of unknown version), primary key packets of unknown version with signatures / user ids / subkeys of their own before, between and after the keys (30 %), signatures of an unsupported public-key algorithm (opaque signature octets; every 7th), marker / literal packets with 0..2 stray signatures in front of, between and after the keys, between components and next to unknown-version keys, leading signatures (6 %), the same key / subkey twice, '
                'a blob that repeats a key (A, B, A), malformed starts (leading signature, user id or subkey before any primary key, public/private mismatch); per case: structure of every '
                'key of the from_blob dictionary, bytes(key) split by an independent splitter, copy.copy, .pubkey compared with the extracted model; '
-               'direct oracles (bytes(key) = key packet + exactly the exportable signature packets of the key itself, of every user id and of every subkey; re-import binary and armored, second round trip, copy identity, explicit exportable=True, concatenation) on the real '
+               'direct oracle for stray packets: the blob without them must read back identically (every key with exactly its own components); direct oracles (bytes(key) = key packet + exactly the exportable signature packets of the key itself, of every user id and of every subkey; re-import binary and armored, second round trip, copy identity, explicit exportable=True, concatenation) on the real '
                'objects; plus keys made by random key-management histories (C15 operations) with cryptographic verification after import. '
                'distinct = distinct token sequences / histories that reached a non-error path',
           trusted=['tools/harness/c14.py World: token <-> packet octets mapping (PGPy packet classes build the octets, an independent splitter reads them back)'],
@@ -22,7 +22,7 @@ TEXT = ('Rocq theorems (Props/C14.v, closed under the global context) about a fa
         'signature list when its lists are in order; per-component exactly the exportable signatures in general; any concatenation of keys with distinct '
         'ids splits; the second round trip is the identity on packets; a copy exports identically; explicit exportable=True survives; insort is '
         'sortedness-preserving and stable; the signature packets the structural model treats as atoms keep their octets through parse / copy / export '
-        '(Model/SubArea.v: C14_signature_areas_verbatim, C14_signature_copy_same_octets); the identity order reads PGPUID.selfsig = the newest self-CERTIFICATION, which a revocation / attestation / third-party signature never changes (C14_uid_order_ignores_noncert); what follows a primary key packet of unknown version is skipped up to the next understood primary key (C14_opaque_primary_skips_what_follows, C14_unknown_primary_keeps_its_components); leading signatures are orphaned and take the next packet with them (C14_leading_signature_orphaned: model of the groupby read-ahead); refutation witnesses for the pre-repair code (bisect_left insort, Boolean subpacket parse, resort, selfsig = newest signature of any type, unknown primary key ignored alone / leading signature raises). '
+        '(Model/SubArea.v: C14_signature_areas_verbatim, C14_signature_copy_same_octets); the identity order reads PGPUID.selfsig = the newest self-CERTIFICATION, which a revocation / attestation / third-party signature never changes (C14_uid_order_ignores_noncert); what follows a primary key packet of unknown version is skipped up to the next understood primary key (C14_opaque_primary_skips_what_follows, C14_unknown_primary_keeps_its_components); packets that are no part of a key (marker / literal packets with the signatures grouped with them, leading signatures) are set aside and change nothing, wherever they stand (C14_stray_packets_do_not_disturb, C14_stray_groups_invisible, C14_leading_signatures_ignored, C14_stray_between_exports; the loop that was left and restarted - losing the packet groupby had read ahead - is import_pre_orphanfix, refuted); refutation witnesses for the pre-repair code (bisect_left insort, Boolean subpacket parse, resort, selfsig = newest signature of any type, unknown primary key ignored alone / leading signature raises). '
         'Tie: pinned source text of the modelled functions + extracted-model correspondence on generated packet sequences and on keys made by real '
         'key-management histories, with direct round-trip / verification oracles on the implementation.',
         'DESIGN.md 5 C14',
